@@ -18,7 +18,7 @@ def dump (s : Schedule) : String :=
 
 /-- `GasCostsValuesV7::unit()`: every fixed cost 1, every dependent cost `HeavyOperation { base: 1, gas_per_unit: 0 }` -/
 def unitSchedule : Schedule :=
-  ⟨Gen.gasFixedFields.map (fun f => (f, 1)), Gen.gasDepFields.map (fun f => (f, DepCost.heavy 1 0))⟩
+  { fixed := Gen.gasFixedFields.map (fun f => (f, 1)), dep := Gen.gasDepFields.map (fun f => (f, DepCost.heavy 1 0)) }
 
 def parseDep (s : String) : Option DepCost :=
   match s.splitOn ":" with
@@ -26,22 +26,34 @@ def parseDep (s : String) : Option DepCost :=
   | ["H", b, g] => match b.toNat?, g.toNat? with | some b, some g => some (.heavy b g) | _, _ => none
   | _ => none
 
+/-- `sched <version> <Word fields of that version…> <DependentCost fields of that version…>` -/
 def parseSched (ws : List String) : Option Schedule :=
-  let nf := Gen.gasFixedFields.length
-  let fs := (ws.take nf).filterMap String.toNat?
-  let ds := (ws.drop nf).filterMap parseDep
-  if fs.length = nf ∧ ds.length = Gen.gasDepFields.length ∧ ws.length = nf + Gen.gasDepFields.length then
-    some ⟨Gen.gasFixedFields.zip fs, Gen.gasDepFields.zip ds⟩
-  else none
+  match ws with
+  | v :: ws =>
+    let ver := natOr v 0
+    if ver = 0 then none else
+    match Gen.gasVersionFields[ver - 1]? with
+    | none => none
+    | some fields =>
+      let fnames := (fields.filter (fun f => !f.2)).map (·.1)
+      let dnames := (fields.filter (fun f => f.2)).map (·.1)
+      let nf := fnames.length
+      let fs := (ws.take nf).filterMap String.toNat?
+      let ds := (ws.drop nf).filterMap parseDep
+      if fs.length = nf ∧ ds.length = dnames.length ∧ ws.length = nf + dnames.length then
+        some { fixed := fnames.zip fs, dep := dnames.zip ds, version := ver }
+      else none
+  | [] => none
 
 def show3 (g : GasState) : String := s!"{g.cgas} {g.ggas} {g.saved.length}"
 
 def errName : GasErr → String
   | .outOfGas => "OutOfGas" | .gasCostNotDefined => "GasCostNotDefined" | .divByZero => "div-by-zero"
   | .arith => "arith-underflow" | .ctxGasOverflow => "ContextGasOverflow" | .ctxGasUnderflow => "ContextGasUnderflow"
-  | .globalGasUnderflow => "GlobalGasUnderflow" | .unknownOpcode => "unknown-opcode"
+  | .globalGasUnderflow => "GlobalGasUnderflow" | .unknownOpcode => "unknown-opcode" | .malformed => "malformed-schedule"
 
-/-- `i MN n a… m s… kind [c g]` -/
+/-- `i MN n a… m s… kind`, kind = `x` (completed or OutOfGas: the model decides which) | `pan Reason c g` (another
+    panic, with the registers after it) | `inx c g` (ECAL: not charged by the VM itself) -/
 def stepLine (st : St) (ws : List String) : St × String :=
   match ws with
   | mn :: n :: rest =>
@@ -52,38 +64,53 @@ def stepLine (st : St) (ws : List String) : St × String :=
       let m := natOr m 0
       let sizes := (rest2.take m).map (fun a => natOr a 0)
       let kind := rest2.drop m
-      let cl : Except GasErr (List Nat × Bool) :=
-        if mn == "?" then .ok ([], true) else chargeList st.sch mn args sizes
-      match cl with
-      | .error e => (st, s!"model-error {errName e}")
-      | .ok (charges, exact) =>
+      let plan : Plan := if mn == "?" then {} else chargePlan st.sch mn args sizes
+      let bad : Option GasErr := match plan.stop with
+        | some .gasCostNotDefined => none
+        | e => e
+      match bad with
+      | some e => (st, s!"model-error {errName e}")
+      | none =>
+        let charges := plan.charges
         match kind with
         | ["x"] =>
-          if !exact then (st, "model-inexact") else
+          if !plan.exact then (st, "model-inexact") else
           match instrGas st.gas mn args charges with
-          | (g', none) => ({ st with gas := g' }, show3 g')
           | (g', some .outOfGas) => ({ st with gas := g' }, show3 g')
           | (g', some e) => ({ st with gas := g' }, s!"model-error {errName e} {show3 g'}")
-        | ["pan", c, g] =>
+          | (g', none) =>
+            match plan.stop with
+            | some e => (st, s!"model-expects-panic {errName e} after charges={charges}")
+            | none =>
+              if !plan.complete then (st, s!"model-expects-panic (cannot complete) after charges={charges}")
+              else ({ st with gas := g' }, show3 g')
+        | ["pan", r, c, g] =>
           let c := natOr c 0; let g := natOr g 0
-          match (panicStates st.gas mn args charges).find? (fun t => t.cgas == c && t.ggas == g) with
-          | some t => ({ st with gas := t }, show3 t)
-          | none => (st, s!"inadmissible-panic-state {show3 st.gas} charges={charges}")
+          if r == "GasCostNotDefined" then
+            match plan.stop with
+            | some .gasCostNotDefined =>
+              match chargeAll st.gas charges with
+              | (t, none) =>
+                if t.cgas == c && t.ggas == g then ({ st with gas := t }, show3 t)
+                else (st, s!"inadmissible-panic-state {show3 st.gas} charges={charges}")
+              | (t, some _) => (st, s!"model-expects-OutOfGas {show3 t} charges={charges}")
+            | _ => (st, s!"model-unexpected-GasCostNotDefined charges={charges}")
+          else
+            match (panicStates st.gas mn args charges).find? (fun t => t.cgas == c && t.ggas == g) with
+            | some t => ({ st with gas := t }, show3 t)
+            | none => (st, s!"inadmissible-panic-state {show3 st.gas} charges={charges}")
         | ["inx", c, g] =>
           let c := natOr c 0; let g := natOr g 0
-          -- known prefix of charges, then further charges the model does not enumerate
-          match chargeAll st.gas charges with
-          | (p, none) =>
-            if c ≤ p.cgas ∧ p.cgas - c = p.ggas - g ∧ g ≤ p.ggas then
-              let t : GasState := { p with cgas := c, ggas := g }
-              ({ st with gas := t }, show3 t)
-            else if c = 0 ∧ g = st.gas.ggas - st.gas.cgas then
-              let t : GasState := { p with cgas := 0, ggas := g }
-              ({ st with gas := t }, show3 t)
-            else (st, s!"inadmissible-inexact-state after-prefix={show3 p}")
-          | (p, some _) =>
-            if c = p.cgas ∧ g = p.ggas then ({ st with gas := p }, show3 p)
-            else (st, s!"inadmissible-inexact-state oog={show3 p}")
+          if plan.exact then (st, "model-exact") else
+          -- the VM charges nothing; whatever the handler charged moves both registers together
+          let p := st.gas
+          if c ≤ p.cgas ∧ p.cgas - c = p.ggas - g ∧ g ≤ p.ggas then
+            let t : GasState := { p with cgas := c, ggas := g }
+            ({ st with gas := t }, show3 t)
+          else if c = 0 ∧ g = p.ggas - p.cgas then
+            let t : GasState := { p with cgas := 0, ggas := g }
+            ({ st with gas := t }, show3 t)
+          else (st, s!"inadmissible-inexact-state {show3 p}")
         | _ => (st, "bad-op")
     | [] => (st, "bad-op")
   | _ => (st, "bad-op")
@@ -94,7 +121,7 @@ def step (st : St) (ws : List String) : St × String :=
   | ["unit"] => (st, dump unitSchedule)
   | "sched" :: rest =>
     match parseSched rest with
-    | some s => ({ st with sch := s }, s!"ok {s.fixed.length + s.dep.length}")
+    | some s => ({ st with sch := s }, s!"ok {s.version} {s.fixed.length + s.dep.length}")
     | none => (st, "bad-schedule")
   | ["begin", l] =>
     let l := natOr l 0
